@@ -73,3 +73,80 @@ def sweep_conditions(ctx, P, rule="SWEEP-COND", floor=9, tus=None):
                 k += 1
     ctx.floor(rule, floor if tus is None else 2)
     return n
+
+
+def sweep_inverse(ctx, P, rule="SWEEP-INVERSE", tus=None, floor=9):
+    """The out-edge half and the in-edge half of every sweep loop are inverses of each other."""
+    from sa.expr import walk as _walk, estr, callee, is_assign
+    ctx.rule(rule, "in every tree-sweep loop the edges-out half detaches (`parent[child] = TSK_NULL`, `x -= …`, update(…, -1)) exactly "
+                   "what the edges-in half attaches (`parent[child] = edge parent`, `x += …`, update(…, +1)): same arrays, same "
+                   "callees, opposite signs, and each half advances its own index")
+    n = 0
+    for key in (tus or LIB_TUS):
+        tu = P.tus[key]
+        for fn in tu.funcs.values():
+            al = None
+            k = 0
+            for w in _walk(fn.body):
+                if w.k != "WhileStmt" or w.kids[-1] is None or w.kids[-1].k != "CompoundStmt":
+                    continue
+                inners = [c for c in w.kids[-1].kids if c is not None and c.k == "WhileStmt"]
+                if len(inners) < 2:
+                    continue
+                al = al or local_aliases(fn)
+                sig = [(c, _sweep_inner(c, al)) for c in inners]
+                sig = [(c, s) for c, s in sig if s]
+                if len(sig) < 2:
+                    continue
+                out = [c for c, s in sig if "removal" in s[3]]
+                inn = [c for c, s in sig if "insertion" in s[3]]
+                if len(out) != 1 or len(inn) != 1:
+                    ctx.ob(rule, "%s@%d|halves" % (fn.name, k), False, tu.loc(w), "cannot identify one removal and one insertion half")
+                    k += 1
+                    continue
+
+                def effects(c, idx):
+                    null_sets, comp, signs, incs = [], {}, {}, []
+                    for x in _walk(c.kids[-1]):
+                        if is_assign(x):
+                            l = strip(x.kids[0])
+                            if l is not None and l.k == "ArraySubscriptExpr":
+                                null_sets.append((estr(l.kids[0]), estr(x.kids[1])))
+                        elif x.k == "CompoundAssignOperator" and x.op in ("+=", "-="):
+                            l = strip(x.kids[0])
+                            base = estr(l.kids[0]) if l is not None and l.k == "ArraySubscriptExpr" else estr(l)
+                            comp.setdefault(base, set()).add(x.op)
+                        elif x.k == "UnaryOperator" and x.op in ("++", "--") and estr(x.kids[0]) == idx:
+                            incs.append(x.op)
+                        elif x.k == "CallExpr" and callee(x):
+                            for a in x.kids[1:]:
+                                t = estr(a)
+                                if t in ("-1", "1", "+1"):
+                                    signs.setdefault(callee(x), set()).add(-1 if t == "-1" else 1)
+                    return null_sets, comp, signs, incs
+                so, si = [s for c, s in sig if c is out[0]][0], [s for c, s in sig if c is inn[0]][0]
+                no, co, sgo, io = effects(out[0], so[0])
+                ni, ci, sgi, ii = effects(inn[0], si[0])
+                # (a) parent-style detach / attach on the same array
+                det = {a for a, v in no if v in ("TSK_NULL", "-1")}
+                att = {a for a, v in ni if v not in ("TSK_NULL", "-1")}
+                ok = bool(det) and det <= att
+                ctx.ob(rule, "%s@%d|detach-attach" % (fn.name, k), ok, tu.loc(w), "out half clears %s, in half sets %s" % (sorted(det), sorted(att)))
+                # (b) accumulators with opposite signs (arrays updated with the same sign in both halves are span accumulators: allowed)
+                for arr in sorted(set(co) & set(ci)):
+                    if co[arr] == ci[arr] and len(co[arr]) == 1:
+                        continue
+                    okb = co[arr] == {"-="} and ci[arr] == {"+="}
+                    ctx.ob(rule, "%s@%d|accumulator|%s" % (fn.name, k, arr), okb, tu.loc(w), "%s: out %s / in %s" % (arr, sorted(co[arr]), sorted(ci[arr])))
+                only = (set(co) ^ set(ci))
+                ctx.ob(rule, "%s@%d|accumulator-sets" % (fn.name, k), not only, tu.loc(w), "arrays accumulated in one half only: %s" % sorted(only))
+                # (c) signed update calls
+                for cal in sorted(set(sgo) | set(sgi)):
+                    okc = (sgo.get(cal) == {-1} and sgi.get(cal) == {1}) or (sgo.get(cal) == sgi.get(cal) == {-1, 1})
+                    ctx.ob(rule, "%s@%d|sign|%s" % (fn.name, k, cal), okc, tu.loc(w), "%s: out half passes %s, in half passes %s" % (cal, sorted(sgo.get(cal, [])), sorted(sgi.get(cal, []))))
+                # (d) index advance
+                ctx.ob(rule, "%s@%d|advance" % (fn.name, k), io == ["++"] and ii == ["++"], tu.loc(w), "each half advances its own index once (%s / %s)" % (io, ii))
+                n += 1
+                k += 1
+    ctx.floor(rule, floor if tus is None else 2)
+    return n
